@@ -329,6 +329,49 @@ func (c *Ctx) c08MapSwapUnderWalk() {
 	}
 }
 
+// reachesBackendCallback: does fn (through static in-package calls, up to depth levels) invoke one of the Trait's function-valued
+// fields Len / DeleteExpired / Evict, which the constructors bind to the backend's own lock-taking methods? Returns a description.
+func (c *Ctx) reachesBackendCallback(fn *types.Func, depth int) string {
+	if c.cbReach == nil {
+		c.cbReach = map[*types.Func]string{}
+	}
+	fn = fn.Origin()
+	if v, ok := c.cbReach[fn]; ok {
+		return v
+	}
+	c.cbReach[fn] = "" // cycle guard
+	fd := c.declOf(fn)
+	if fd == nil || fd.Body == nil || depth < 0 {
+		return ""
+	}
+	info := c.Pkg.TypesInfo
+	res := ""
+	ast.Inspect(fd.Body, func(x ast.Node) bool {
+		call, ok := x.(*ast.CallExpr)
+		if !ok || res != "" {
+			return res == ""
+		}
+		if sel, ok := ast.Unparen(call.Fun).(*ast.SelectorExpr); ok {
+			if sl := info.Selections[sel]; sl != nil && sl.Kind() == types.FieldVal && namedTypeName(sl.Recv()) == "Trait" {
+				switch selFieldName(sl) {
+				case "Len", "DeleteExpired", "Evict":
+					res = "Trait." + selFieldName(sl) + " (called in " + strings.TrimPrefix(pw.FuncName(fn), "cache.") + ")"
+					return false
+				}
+			}
+		}
+		if callee, _ := typeutil.Callee(info, call).(*types.Func); callee != nil && callee.Pkg() == c.Pkg.Types {
+			if via := c.reachesBackendCallback(callee, depth-1); via != "" {
+				res = via
+				return false
+			}
+		}
+		return true
+	})
+	c.cbReach[fn] = res
+	return res
+}
+
 func hasViolationRule(obls []*coreObl, rule string) bool {
 	for _, o := range obls {
 		if o.Rule == rule && o.Status != "discharged" {
@@ -371,6 +414,13 @@ func (c *Ctx) c08Backend(b BK) {
 					}
 					if ev.Op == "Unlock" || ev.Op == "RUnlock" {
 						delete(lastLookup, bp)
+					}
+				}
+				// a call made with a shard lock held must not come back into the backend: the Trait's Len/DeleteExpired/Evict
+				// callbacks are this backend's own methods and take shard locks (sync.RWMutex is not reentrant)
+				if ev.Kind == pw.EvCall && ev.Callee != nil && ev.Callee.Pkg() == c.Pkg.Types && len(ls[i]) > 0 && ls[i].any() {
+					if via := c.reachesBackendCallback(ev.Callee, 4); via != "" {
+						report("R08.5", "callback-under-shard-lock", c.Pos(ev.Pos), "with a shard lock held "+ev.Name()+" is called, which reaches "+via+": the backend's own Len/DeleteExpired/Evict take shard locks (self-deadlock)", p)
 					}
 				}
 				if b.Sharded && isShardData(ev) {
